@@ -329,32 +329,58 @@ struct System {
 // object the left-hand side is about to release.  Enumerated family (E3): chain length, which nodes are also held
 // from outside, copy / move / converting-style assignment; oracle: use_count of every live node == number of handles
 // pointing to it (head, predecessor's next, external holders), destructor log exact, ASan.
-struct LNode : public tlx::ReferenceCounter {
+struct LBase : public tlx::ReferenceCounter {
+    virtual ~LBase() {}
+};
+struct LNode : public LBase {
     int id;
     tlx::CountingPtr<LNode> next;
     static int* dtor_log;  // [id] -> destructor calls
     explicit LNode(int i) : id(i) {}
-    ~LNode() { dtor_log[id]++; }
+    ~LNode() override { dtor_log[id]++; }
 };
 int* LNode::dtor_log = nullptr;
 
-static void list_case(uint64_t cid) {
+// Cursor = CountingPtr<LNode> (same-type assignments), CountingPtr<const LNode> (converting copy assignment; a member reached
+// through a const node cannot be moved from) or CountingPtr<LBase> (converting copy AND move assignment, base <- derived)
+template <class Cursor>
+struct ListOps;
+template <>
+struct ListOps<tlx::CountingPtr<LNode>> {
+    static const char* nm() { return "list"; }
+    static tlx::CountingPtr<LNode>& next_of(tlx::CountingPtr<LNode>& c) { return c->next; }
+};
+template <>
+struct ListOps<tlx::CountingPtr<const LNode>> {
+    static const char* nm() { return "list_const_cursor"; }
+    static const tlx::CountingPtr<LNode>& next_of(tlx::CountingPtr<const LNode>& c) { return c->next; }
+};
+template <>
+struct ListOps<tlx::CountingPtr<LBase>> {
+    static const char* nm() { return "list_base_cursor"; }
+    static tlx::CountingPtr<LNode>& next_of(tlx::CountingPtr<LBase>& c) { return static_cast<LNode*>(c.get())->next; }
+};
+
+static const int LIST_PER_CURSOR = 4 * 16 * 3;
+
+template <class Cursor>
+static void list_case_t(uint64_t cid, const std::string& rp) {
+    typedef ListOps<Cursor> LO;
     int L = 1 + (int)(cid % 4);
     uint64_t q = cid / 4;
     unsigned mask = (unsigned)(q % 16);
     q /= 16;
     int variant = (int)(q % 3);  // 0 copy-assign, 1 move-assign, 2 copy via temporary (x = P(x->next))
     if (mask >> L) return;       // holders beyond the chain: duplicate of a smaller mask
-    std::string rp = vh::fmt("list:%llu", (unsigned long long)cid);
-    static const char* vn[] = {"list.copy_assign_from_member", "list.move_assign_from_member", "list.assign_from_temporary"};
-    vh::at(vn[variant], rp);
+    static const char* vn[] = {".copy_assign_from_member", ".move_assign_from_member", ".assign_from_temporary"};
+    vh::at((std::string(LO::nm()) + vn[variant]).c_str(), rp);
     int log[4] = {0, 0, 0, 0};
     LNode::dtor_log = log;
     typedef tlx::CountingPtr<LNode> LP;
     {
         LNode* raw[4] = {nullptr, nullptr, nullptr, nullptr};
         LP ext[4];
-        LP head;
+        Cursor head;
         {
             LP prev;
             for (int i = L - 1; i >= 0; --i) {
@@ -368,14 +394,8 @@ static void list_case(uint64_t cid) {
         }
         int pos = 0;  // head points to node pos
         for (;;) {
-            // check: nodes < pos are alive iff held externally (or reachable from an alive predecessor)
             bool alive[4];
-            for (int i = 0; i < L; ++i) {
-                bool a = (mask & (1u << i)) != 0 || (i >= pos && pos < L);
-                if (!a && i > 0 && i < pos) a = false;
-                alive[i] = a;
-            }
-            // reachability: node i (i<pos) alive iff external holder on i, or predecessor i-1 alive
+            // reachability: node i alive iff external holder on i, or head points to it, or predecessor i-1 alive
             for (int i = 0; i < L; ++i) {
                 bool a = (mask & (1u << i)) != 0;
                 if (i == pos && pos < L) a = true;
@@ -393,12 +413,13 @@ static void list_case(uint64_t cid) {
                 }
             }
             if (pos >= L) break;
-            if (variant == 0) head = head->next;
+            if (variant == 0) head = LO::next_of(head);
             else if (variant == 1) {
                 // moving out of a member of a node that stays alive would change the list; only when head is the sole owner
-                if (alive[pos] && ((mask >> pos) & 1 || (pos > 0 && alive[pos - 1]))) head = head->next;
-                else head = std::move(head->next);
-            } else head = LP(head->next);
+                // (through a const cursor std::move yields a const rvalue, which selects the copy assignment: still a distinct call form)
+                if (alive[pos] && ((mask >> pos) & 1 || (pos > 0 && alive[pos - 1]))) head = LO::next_of(head);
+                else head = std::move(LO::next_of(head));
+            } else head = Cursor(LO::next_of(head));
             ++pos;
         }
     }
@@ -407,6 +428,16 @@ static void list_case(uint64_t cid) {
     vh::stat_add("list_cases");
     vh::stat_add("states");
     vh::stat_add("transitions", L);
+}
+
+static void list_case(uint64_t cid) {
+    std::string rp = vh::fmt("list:%llu", (unsigned long long)cid);
+    uint64_t c = cid % LIST_PER_CURSOR;
+    switch (cid / LIST_PER_CURSOR) {
+    case 0: list_case_t<tlx::CountingPtr<LNode>>(c, rp); break;
+    case 1: list_case_t<tlx::CountingPtr<const LNode>>(c, rp); break;
+    default: list_case_t<tlx::CountingPtr<LBase>>(c, rp); break;
+    }
 }
 
 int main(int argc, char** argv) {
@@ -433,6 +464,6 @@ int main(int argc, char** argv) {
         vhist::run_config(s1, opt);
     }
     if (1 % n == sh) vhist::run_config(s2, opt);
-    vh::run_cases(4 * 16 * 3, [](uint64_t c) { list_case(c); });
+    vh::run_cases(3 * LIST_PER_CURSOR, [](uint64_t c) { list_case(c); });
     return vh::finish();
 }
